@@ -310,7 +310,8 @@ impl<const D: bool> SimShim<D> {
                 }
                 Unit::Rows(r) => {
                     let mut rw = api!("start", w.start(&colsets[i]))?;
-                    for (ri, row) in r.rows.iter().enumerate() {
+                    let mut row_err: Option<io::Error> = None;
+                    'rows: for (ri, row) in r.rows.iter().enumerate() {
                         // apply the contradiction, if it concerns this row
                         let mut cells: Vec<Cell> = row.clone();
                         let mut force_end = false;
@@ -338,7 +339,10 @@ impl<const D: bool> SimShim<D> {
                             _ => {}
                         }
                         if r.write_row {
-                            api!("write_row", rw.write_row(cells.iter().map(CellVal)))?;
+                            if let Err(e) = api!("write_row", rw.write_row(cells.iter().map(CellVal))) {
+                                row_err = Some(e);
+                                break 'rows;
+                            }
                         } else {
                             for (ci, cell) in cells.iter().enumerate() {
                                 if p.probe_cells {
@@ -357,13 +361,30 @@ impl<const D: bool> SimShim<D> {
                                         return Err(ShimErr::Token(PROBE_ABORT));
                                     }
                                 } else {
-                                    api!("write_col", write_cell(&mut rw, cell))?;
+                                    if let Err(e) = api!("write_col", write_cell(&mut rw, cell)) {
+                                        row_err = Some(e);
+                                        break 'rows;
+                                    }
                                 }
                             }
                             let is_last_row = ri + 1 == r.rows.len();
                             if !is_last_row || r.last_row_ended || force_end {
-                                api!("end_row", rw.end_row())?;
+                                if let Err(e) = api!("end_row", rw.end_row()) {
+                                    row_err = Some(e);
+                                    break 'rows;
+                                }
                             }
+                        }
+                    }
+                    if let Some(e) = row_err {
+                        match &r.recover {
+                            // report the failure to the client instead of propagating it
+                            Some((kind, msg)) => {
+                                let m = msg.to_vec();
+                                api!("finish_error", rw.finish_error(errkind(*kind), &m))?;
+                                return Ok(());
+                            }
+                            None => return Err(e.into()),
                         }
                     }
                     match &r.close {
